@@ -146,8 +146,16 @@ impl Drop for SinkWriter<'_> {
 
 #[derive(Clone, Copy)]
 pub struct VirtTimer;
+/// fault: the n-th reading of the clock fails (the record must still be written, complete, without a time)
+pub static TIMER_FAIL: Mutex<Vec<u64>> = Mutex::new(Vec::new());
+static TIMER_CALLS: AtomicU64 = AtomicU64::new(0);
 impl FormatTime for VirtTimer {
     fn format_time(&self, w: &mut Writer<'_>) -> std::fmt::Result {
+        let n = TIMER_CALLS.fetch_add(1, Ordering::SeqCst) + 1;
+        if TIMER_FAIL.lock().unwrap().contains(&n) {
+            fault("timer_error");
+            return Err(std::fmt::Error);
+        }
         write!(w, "T{}", detsim::now_ns())
     }
 }
@@ -481,7 +489,7 @@ impl Engine for FmtEngine {
         m
     }
     fn rule(&self, _p: &str) -> String {
-        "configuration = formatter (full/compact/pretty/json) x options (target, level, thread id/name, file/line, ansi, virtual-clock timer or none, span events none/new+close/active/full, json flatten/current_span/span_list) x writer expression of depth <=3 over <=5 recording sinks (with_max_level, with_min_level, with_filter, and, or_else), a fifth of the sinks accepting only short writes (1-40 bytes per call) and, under seeded total orders, a quarter being guard-style factories whose lock a panic unwinding through a live writer poisons; 1-8 threads emit <=12 events each inside span nestings; schedules interleave threads at the sinks' make_writer_for/write calls; faults: a field whose Debug panics (caught), a failing write in one Tee branch, short writes; non-trivial = >=2 threads' records interleaved at a sink or a combinator routed records of the run to different sink sets, and >=1 record inside a span nesting; distinct = distinct (plan, schedule digest)".into()
+        "configuration = formatter (full/compact/pretty/json) x options (target, level, thread id/name, file/line, ansi, virtual-clock timer or none, span events none/new+close/active/full, json flatten/current_span/span_list) x writer expression of depth <=3 over <=5 recording sinks (with_max_level, with_min_level, with_filter, and, or_else), a fifth of the sinks accepting only short writes (1-40 bytes per call) and, under seeded total orders, a quarter being guard-style factories whose lock a panic unwinding through a live writer poisons; 1-8 threads emit <=12 events each inside span nestings; schedules interleave threads at the sinks' make_writer_for/write calls; faults: a field whose Debug panics (caught), a failing write in one Tee branch, short writes, a failing clock reading; non-trivial = >=2 threads' records interleaved at a sink or a combinator routed records of the run to different sink sets, and >=1 record inside a span nesting; distinct = distinct (plan, schedule digest)".into()
     }
     fn components(&self) -> Value {
         json!({"real": ["tracing_subscriber::fmt::Subscriber (on_event/on_new_span/... with thread-local buffer)", "format::{Full, Compact, Pretty, Json}", "writer combinators WithMaxLevel/WithMinLevel/WithFilter/Tee/OrElse/BoxMakeWriter", "Registry"], "stub": ["sinks (recording MakeWriter/Write)", "timer (virtual clock)"]})
@@ -537,6 +545,9 @@ impl Engine for FmtEngine {
         if rng.chance(1, 4) && next_sink > 0 {
             faults.push(json!({"kind": "sink_error", "sink": rng.below(next_sink), "nth": rng.range(1, 4)}));
         }
+        if opts["timer"].as_bool().unwrap_or(false) && rng.chance(1, 3) {
+            faults.push(json!({"kind": "timer_error", "nth": rng.range(1, 6)}));
+        }
         let sched = if sync { Sched::swarm(&mut rng, 400) } else { Sched::op_order(rng.next_u64()) };
         json!({"engine": "fmt", "prop": g.prop, "mode": g.mode, "cfg": {"opts": opts, "writer": writer, "threads": nthreads, "nsinks": next_sink}, "steps": steps, "faults": faults, "sched": serde_json::to_value(&sched).unwrap()})
     }
@@ -559,6 +570,9 @@ impl Engine for FmtEngine {
         for f in plan["faults"].as_array().cloned().unwrap_or_default() {
             if f["kind"] == "sink_error" {
                 SINK_FAIL.lock().unwrap().push((f["sink"].as_u64().unwrap_or(0) as usize, f["nth"].as_u64().unwrap_or(1)));
+            }
+            if f["kind"] == "timer_error" {
+                TIMER_FAIL.lock().unwrap().push(f["nth"].as_u64().unwrap_or(1));
             }
         }
         let sync = sched.sync;
